@@ -809,7 +809,7 @@ func runSess(env *Env) error {
 	for i := 0; i < env.N; i++ {
 		id := fmt.Sprintf("sess-%d", i)
 		withCD := i%10 == 3
-		top := filepath.Join(base, fmt.Sprintf("w%d", i))
+		top := filepath.Join(base, fmt.Sprintf("w%da", i))
 		w := genWorld(env, withCD)
 		if err := w.Materialise(top); err != nil {
 			return err
@@ -873,6 +873,38 @@ func runSess(env *Env) error {
 		}
 		if !allow && strings.Join(before, "\n") != strings.Join(res.dumpLines, "\n") {
 			env.OracleFail(id, "[C05-readonly] writing is disabled but the served tree changed")
+		}
+		// non-interference oracle (C01): the same session against a world whose surroundings of the root
+		// differ (other names, other contents) must produce the same bytes
+		if i%4 == 1 {
+			top2 := filepath.Join(base, fmt.Sprintf("w%db", i))
+			w2 := &WNode{Name: "", Dir: true, MTime: 1200000000, Kids: []*WNode{
+				w.Child("R"),
+				{Name: "R-other", MTime: 1200000001, Content: lit([]byte("now a file"))},
+				{Name: "Rx", Dir: true, MTime: 1200000002, Kids: []*WNode{{Name: "secret", Dir: true, MTime: 1200000003}}},
+				{Name: "zz", MTime: 1200000004, Content: lit([]byte("zz"))},
+			}}
+			if err := w2.Materialise(top2); err != nil {
+				return err
+			}
+			res2, err := runSession(top2, allow, chunks, ops, bufSize, nil)
+			if err != nil {
+				return err
+			}
+			a, b := obsString(res, true), obsString(res2, true)
+			a, b = a[:strings.Index(a, ";world=")], b[:strings.Index(b, ";world=")]
+			if a != b || len(res.steps) != len(res2.steps) {
+				env.OracleFail(id, fmt.Sprintf("[C01-ni] the same session answered differently when only the surroundings of the root differ: %s vs %s", trim(a, 120), trim(b, 120)))
+			} else {
+				for k := range res.steps {
+					if !bytes.Equal(res.steps[k].out, res2.steps[k].out) {
+						env.OracleFail(id, fmt.Sprintf("[C01-ni] step %d answered differently when only the surroundings of the root differ", k))
+						break
+					}
+				}
+			}
+			env.Count("ni_runs", "1")
+			os.RemoveAll(top2)
 		}
 		cfg := fmt.Sprintf("%s|%s|%d|%s", hx([]byte("R")), hxnum(int64(len(top))), b2i(allow), hxnum(tmutUnix))
 		var opl []string
